@@ -195,6 +195,7 @@ def make_machine(max_n: int, explicit_up_to: int = 5):
 
         def _do(self, op):
             self.case["ops"].append(op)
+            self.ctx.current_case = self.case
             self.sim.apply(op)
 
         @precondition(lambda self: self.sim is not None and self.sim.unknown())
